@@ -174,3 +174,7 @@ Definition apply_category_filters (neg : Z) (cats : list cat) (cd : list (word *
           end
       end
   end.
+
+(* the caller's arrays after the call: updated in place on success, as they were on an exception *)
+Definition arrays_after (neg : Z) (cats : list cat) (cd : list (word * list cat)) (d : docarg) (s : scarg) : list scores :=
+  match apply_category_filters neg cats cd d s with Ok (_, scs') => scs' | Err _ => sc_list s end.
